@@ -1,3 +1,173 @@
 import Driver.Common
-/-! stub: replaced by the owner of this driver -/
-def main : IO Unit := Driver.run () (fun s _ => (s, "bad-op"))
+import ScionVerif.Model.Sched
+/-! line-protocol driver for the path-manager concurrency model (C20).
+
+The harness proposes a schedule action by action; every action is answered `ok` (it was enabled in the
+model and has been executed) or `disabled` (it is not enabled in the current model state – the observed
+trace is *not* a trace of the model).  `q …` requests read the model state for comparison with what the
+real `MultiPathManager` showed.
+-/
+open ScionVerif.Sched Driver
+
+def parseStore : String → Option Store
+  | "keep" => some .keep
+  | "clear" => some .clear
+  | s => if s.startsWith "set:" then (s.drop 4).toNat?.map Store.set else none
+
+def parseRes : String → Option FetchRes
+  | "ok" => some .ok
+  | "empty" => some .empty
+  | "err" => some .err
+  | _ => none
+
+def parseWAct : List String → Option WAct
+  | ["upgradeStart"] => some .upgradeStart
+  | ["setOngoing"] => some .setOngoing
+  | ["fetchDone", r] => (parseRes r).map .fetchDone
+  | ["cacheStore", a] => (parseStore a).map .cacheStore
+  | ["setErr"] => some .setErr
+  | ["publishActive", a] => (parseStore a).map .publishActive
+  | ["clearAndNotify"] => some .clearAndNotify
+  | ["releaseMgr"] => some .releaseMgr
+  | ["cancelSeen"] => some .cancelSeen
+  | ["mgrGone"] => some .mgrGone
+  | ["tickRefetch"] => some .tickRefetch
+  | ["tickIdle"] => some .tickIdle
+  | ["tickNothing", "0"] => some (.tickNothing false)
+  | ["tickNothing", "1"] => some (.tickNothing true)
+  | ["issueRx", a] => (parseStore a).map .issueRx
+  | ["exitRemove"] => some .exitRemove
+  | ["exitNotify"] => some .exitNotify
+  | ["storeNone"] => some .storeNone
+  | _ => none
+
+def parseTAct : String → Option TAct
+  | "peek" => some .peek
+  | "contains" => some .contains
+  | "ensure" => some .ensure
+  | "loadActive" => some .loadActive
+  | "lockCheck" => some .lockCheck
+  | "awake" => some .awake
+  | "reload" => some .reload
+  | "readErr" => some .readErr
+  | _ => none
+
+def tActName : TAct → String
+  | .peek => "peek" | .contains => "contains" | .ensure => "ensure" | .loadActive => "loadActive"
+  | .lockCheck => "lockCheck" | .awake => "awake" | .reload => "reload" | .readErr => "readErr"
+
+def reasonStr : Reason → String
+  | .idle => "idle" | .cancelled => "cancelled" | .mgrGone => "mgrGone"
+
+def errStr : Err → String
+  | .noPaths => "noPaths" | .fetchFailed => "fetchFailed" | .exited r => "exited:" ++ reasonStr r
+
+def frStr : FetchRes → String
+  | .ok => "ok" | .empty => "empty" | .err => "err"
+
+def wpcStr : WPc → String
+  | .start => "start" | .setOngoing => "setOngoing" | .fetching => "fetching"
+  | .cache r => "cache:" ++ frStr r | .setErr r => "setErr:" ++ frStr r | .publish => "publish"
+  | .clear => "clear" | .release => "release" | .loop => "loop"
+  | .exitRemove r => "exitRemove:" ++ reasonStr r | .exitNotify r => "exitNotify:" ++ reasonStr r
+  | .exitStore => "exitStore" | .done => "done"
+
+def tpcStr : TPc → String
+  | .peek => "peek" | .contains => "contains" | .ensure => "ensure" | .loadActive => "loadActive"
+  | .lockCheck => "lockCheck" | .waiting g => s!"waiting:{g}" | .reload => "reload" | .readErr => "readErr"
+  | .done => "done"
+
+def kindStr : Kind → String
+  | .path => "path" | .cached => "cached" | .handle => "handle"
+
+def resStr : Option Res → String
+  | none => "-"
+  | some (.path p) => s!"path:{p}"
+  | some (.err e) => "err:" ++ errStr e
+  | some .nothing => "nothing"
+
+def optNat : Option Nat → String
+  | none => "-"
+  | some n => toString n
+
+def b01 (b : Bool) : String := if b then "1" else "0"
+
+def doAct (st : State) (a : Action) : State × String :=
+  match step? st a with
+  | some st' => (st', "ok")
+  | none => (st, "disabled")
+
+def stepD (st : State) : List String → State × String
+  | ["reset"] => (State.init, "ok")
+  | "w" :: i :: rest =>
+    match i.toNat?, parseWAct rest with
+    | some i, some a => doAct st (.w i a)
+    | _, _ => (st, "bad-op")
+  | ["t", j, "next"] =>
+    match j.toNat? with
+    | some j =>
+      if j < st.nT then
+        match (st.t j).nextAct with
+        | some a =>
+          match step? st (.t j a) with
+          | some st' => (st', "ok " ++ tActName a)
+          | none => (st, "blocked")
+        | none => (st, "disabled")
+      else (st, "disabled")
+    | none => (st, "bad-op")
+  | ["t", j, a] =>
+    match j.toNat?, parseTAct a with
+    | some j, some a => doAct st (.t j a)
+    | _, _ => (st, "bad-op")
+  | ["m", "spawnPath", k] => match k.toNat? with
+    | some k => doAct st (.m (.spawnPath k))
+    | none => (st, "bad-op")
+  | ["m", "spawnCached", k] => match k.toNat? with
+    | some k => doAct st (.m (.spawnCached k))
+    | none => (st, "bad-op")
+  | ["m", "spawnHandle", i] => match i.toNat? with
+    | some i => doAct st (.m (.spawnHandle i))
+    | none => (st, "bad-op")
+  | ["m", "stop", k] => match k.toNat? with
+    | some k => doAct st (.m (.stop k))
+    | none => (st, "bad-op")
+  | ["m", "drop"] => doAct st (.m .drop)
+  | ["m", "reclaim", i] => match i.toNat? with
+    | some i => doAct st (.m (.reclaim i))
+    | none => (st, "bad-op")
+  | ["q", "t", j] => match j.toNat? with
+    | some j =>
+      if j < st.nT then
+        let t := st.t j
+        (st, s!"{kindStr t.kind} key={t.key} pc={tpcStr t.pc} h={optNat t.h} res={resStr t.res}")
+      else (st, "none")
+    | none => (st, "bad-op")
+  | ["q", "w", i] => match i.toNat? with
+    | some i =>
+      if i < st.nW then
+        let x := st.w i
+        (st, s!"key={x.key} pc={wpcStr x.pc} init={b01 x.sh.initialized} ongoing={b01 x.sh.ongoing} " ++
+             s!"err={(x.sh.error.map errStr).getD "-"} active={optNat x.sh.active} gen={x.sh.gen} " ++
+             s!"used={b01 x.used} cancelled={b01 x.cancelled} fetches={x.fetches}")
+      else (st, "none")
+    | none => (st, "bad-op")
+  | ["q", "k", k] => match k.toNat? with
+    | some k => (st, s!"entry={optNat (st.map k)} spawned={st.spawned k} removed={st.removed k}")
+    | none => (st, "bad-op")
+  | ["q", "g"] => (st, s!"nW={st.nW} nT={st.nT} alive={b01 st.alive} dropped={b01 st.userDropped}")
+  | _ => (st, "bad-op")
+
+/-- driver state: current model state + a stack of saved states (`save` / `restore` / `forget`), used by the
+harness to try candidate linearisations of a racy segment -/
+def stepS (st : State × List State) : List String → (State × List State) × String
+  | ["save"] => ((st.1, st.1 :: st.2), "ok")
+  | ["restore"] => match st.2 with
+    | s :: rest => ((s, rest), "ok")
+    | [] => (st, "disabled")
+  | ["forget"] => match st.2 with
+    | _ :: rest => ((st.1, rest), "ok")
+    | [] => (st, "disabled")
+  | ["reset"] => ((State.init, []), "ok")
+  | ws => let (s', r) := stepD st.1 ws; ((s', st.2), r)
+
+def main : IO Unit := Driver.run (State.init, ([] : List State)) stepS
